@@ -3,6 +3,6 @@
 cd /verif/kani
 HS=$(grep -oE "fn (c[0-9]+_[a-z_0-9]+)\(\)|law!\((c[0-9]+_[a-z_0-9]+)" src/lib.rs | sed -E 's/fn //; s/\(\)//; s/law!\(//')
 mkdir -p /verif/target/kani-logs
-run() { h=$1; s=$(date +%s); timeout 900 cargo kani -Z restrict-vtable --harness $h --exact --target-dir /verif/target/kani/$h > /verif/target/kani-logs/$h.log 2>&1; rc=$?; e=$(date +%s); echo "$h rc=$rc $((e-s))s $(grep -E 'VERIFICATION:-|Complete -' /verif/target/kani-logs/$h.log | tr '\n' ' ')"; }
+run() { h=$1; s=$(date +%s); timeout 900 cargo kani -Z restrict-vtable --harness harness::$h --exact --target-dir /verif/target/kani/$h > /verif/target/kani-logs/$h.log 2>&1; rc=$?; e=$(date +%s); echo "$h rc=$rc $((e-s))s $(grep -E 'VERIFICATION:-|Complete -' /verif/target/kani-logs/$h.log | tr '\n' ' ')"; }
 export -f run
 echo $HS | tr ' ' '\n' | xargs -P 5 -I{} bash -c 'run {}'
